@@ -36,7 +36,9 @@ func NewEvaluator(app *protocol.ApplicationContext, expireCache int, minimumComp
 }
 
 // GetConsumerStatus is getConsumerStatus, synchronously.
-func (e *Evaluator) GetConsumerStatus(request *protocol.EvaluatorRequest) { e.m.VerifGetConsumerStatus(request) }
+func (e *Evaluator) GetConsumerStatus(request *protocol.EvaluatorRequest) {
+	e.m.VerifGetConsumerStatus(request)
+}
 
 // Evaluate is evaluateConsumerStatus.
 func (e *Evaluator) Evaluate(clusterAndConsumer string) (interface{}, error) {
